@@ -11,8 +11,18 @@
 (b''') documented defaults and calling forms (mc/c12_defaults.py): every optional argument omitted (one at a time, all
     together) == the documented default (pinned table, compared with inspect.signature too) passed explicitly; every
     argument by keyword == positionally in the documented order (subchecks C12.defaults.*, C12.forms.keyword_equals_positional).
-Around EVERY call of real code (all parts) the argument arrays' byte images and numpy.geterr() are
-compared before/after, whether the call returns or raises (mc/c12_guard.py).
+(b4) aspect-ratio deviation: the sweeps of (a) and (b) that depend on the SHAPE of their input (angles, cotangent,
+    circumcentre, signed angles, plane projection, cross / dot / norm / distance, determinants, planar lines and segments,
+    boxes) repeated with coordinate i multiplied by 2^e_i, e in {0,k}^3 non-uniform: needles and pancakes along every axis
+    and coordinate plane (subchecks C12.aspect.*, input classes suffixed ':aspect=2^k').
+(c') histories on ONE Vec object (mc/c12_hist.py): every sequence of in-place events (normalize, setters, item / slice
+    assignment, in-place operators) up to the depth, replayed cold and warm, x every primitive with the object in every
+    vector position, against a list-of-floats model (subchecks C12.hist.*).
+Around EVERY call of real code (all parts) the argument arrays' byte images AND HEADERS (class, dtype, shape, strides,
+WRITEABLE / ALIGNED flags, instance attributes) and numpy.geterr() are compared before/after, whether the call returns or
+raises (mc/c12_guard.py).  Argument form: for every entry point the first 4 guarded calls of a task and every 8th after
+that are repeated with every plain 1-D array argument replaced by a mouette Vec owning a copy (guarded the same way; the
+answer must be the answer of the array form: C12.forms.vec_argument); the BFS world exists in an array and in a Vec form.
 """
 from __future__ import annotations
 import cmath, itertools, math, sys, warnings
@@ -21,9 +31,10 @@ from mc.core import Report
 from mc.canon import canon
 from mc.explore import bfs
 from mc import exact as X
-from mc.c12_guard import Guard, INITS, blame_run, lib_dir_of, _short
+from mc.c12_guard import Guard, INITS, blame_run, lib_dir_of, _short, hdr, hdr_diff
 from mc import c12_exact as XE
 from mc import c12_defaults as XD
+from mc import c12_hist as XH
 
 ID = "C12"
 TECHNIQUE = "bounded-exhaustive lattice sweeps vs exact oracles + explicit-state BFS over call histories x numpy error states"
@@ -39,7 +50,14 @@ RULE = ("boxes: every (min,max) corner pair of the lattice alphabet (inverted, f
         "repeated with all lengths x 2^-30 and x 2^30; a case is one input tuple / one "
         "distinct (geterr, byte images, aliasing pattern) state; non-trivial = the call reached the library; defaults / "
         "calling forms: every entry point of the pinned table x its small input family x {all explicit positional, all by "
-        "keyword, each optional omitted, all optionals omitted, each non-default alternative positional and by keyword}")
+        "keyword, each optional omitted, all optionals omitted, each non-default alternative positional and by keyword}; "
+        "aspect ratio: the shape-dependent lattice sweeps repeated with coordinate i x 2^e_i for every non-uniform e in {0,k}^3 "
+        "(thorough: also the permutations of (k, k/2, 0)); argument form: per task and entry point the first 4 guarded calls "
+        "and every 8th later one repeated with Vec arguments (a rule, not a draw); BFS world in two forms (caller vectors as "
+        "plain arrays / as Vecs) with the vertex objects of the mesh among the arguments; Vec histories: 3 start vectors x "
+        "every sequence of <= 3 (thorough 4) of the 13 (planar: 12) in-place events x {cold, warm} replay x every query of "
+        "the menu (39 three-dimensional, 29 planar), a case = one sequence, undefined sequences (normalising the zero "
+        "vector, decided on the model) filtered and counted")
 ASSUMPTIONS = [
     "coordinates restricted to the small integer / half-integer alphabets given in the bounds (float arithmetic exact on them)",
     "irrational results (l2 norms, angles, rotations, circumcentres, roots) compared with tolerance 1e-12 (1e-9 where acos/tan is involved)",
@@ -61,6 +79,21 @@ ASSUMPTIONS = [
     "(which agree with the docstrings); 'omitted == documented default passed explicitly' compares two runs of the real code "
     "exactly (the explicit forms are judged against the oracles by the other sweeps); match_rotation (outside the statement) "
     "only takes part in the defaults / calling-form clauses",
+    "aspect-ratio deviation: exponents are non-negative, so all coordinates are Python ints and every expectation is formed "
+    "exactly (k <= 24 keeps every dot product below 2^53); rotation axes, plane / reference normals and paddings are not "
+    "scaled; angles are judged against atan2 of the exact |u x v| and u.v (the acos oracle of the unit lattice loses half "
+    "the digits near 0 and pi); cotangent within 1e-9 relative; cot x tan(angle) = 1 within 1e-9 + 4 ulp(angle)/|sin cos| "
+    "(the rounding of the angle itself, which no implementation can avoid); rotations, angle reduction and roots have no "
+    "shape and are not repeated",
+    "a changed header of an argument array (WRITEABLE flag cleared, dtype / strides / class changed, an instance attribute "
+    "added) counts as a change of 'the arrays passed' even when the bytes are the same: the caller can observe it",
+    "Vec-argument form: the answer for Vec arguments is compared with the answer for the same data in plain arrays "
+    "(relative 1e-9; a 0-d array counts as a number); 'raises' in one form and 'returns' in the other is counted only",
+    "Vec histories: the reference model is a list of Python floats on which the same events are played (IEEE double "
+    "arithmetic on both sides; comparison relative 1e-9, floor 1); queries whose value is undefined or ill-conditioned in "
+    "the reached state (zero vector, partners within 1e-6 of parallel, a coordinate within 1e-9 of a face of the half-open "
+    "box) are decided on the model, counted and only watched for side effects; in-place events: AABB.pad in the BFS, "
+    "Vec.normalize / setters / item and slice assignment / *= /= += -= / ufunc(out=) in the Vec histories",
 ]
 BOUNDS = {
     "quick": "boxes: d=1 corners {-2..2} x points {-2.5..2.5 step .5} (float+int), d=2 corners {-1,0,1,2} x points {-1.5..2.5 step .5} "
@@ -79,13 +112,19 @@ BOUNDS = {
              "norm / Vec.norm / normalized / normalize on {-2..2}^3 (float+int), distance on all pairs of {-1,0,1}^3, AABB.distance on "
              "all non-inverted boxes d=1 {-2..2}, d=2 {-1,0,1}, d=3 {0,1} x half-lattice points, unit_cube d<=4, of_points / of_mesh "
              "on <=2-point clouds (3 forms), roots n<=6 x 14 units x 3 moduli, match_rotation on 8^2 rotation pairs; keyword == "
-             "positional for 30 entry points on 25..343 inputs each",
+             "positional for 30 entry points on 25..343 inputs each; aspect ratio k=16: angles / cotan / circumcentre / signed "
+             "angles on all 6 patterns (outer {-1,0,1}^3), cross-dot-norm + box points d=3, det_3x3 + box pairs d=3, plane "
+             "projection + of_points d=3 on 2 patterns each (rotation), planar kinds (det_2x2, lines, segments, boxes d=2, "
+             "of_points, pad) on both planar patterns; Vec histories depth 3 (2379 + 2379 + 1884 sequences); BFS world form "
+             "alternating over the 4 error states; 5 events on mesh vertex objects",
     "thorough": "quick plus: boxes d=2 corners {-2..2} x points {-2.5..2.5}, d=3 corners {-1,0,1} and {-1,0,1,2} x their half-lattices; all ordered "
                 "pairs of d=2 {-2..2} and d=3 {-1,0,1}; of_points d=3 on {-2..2} (<=2 points) and {-1,0,1,2} (<=3 points); det_3x3 on all triples "
                 "of {-2..2}^3; angle/cotan/circumcentre triples and signed-angle pairs with outer vectors in {-2..2}^3; 3-D rotations with all 13 "
                 "second angles; line pairs with directions in {-2..2}^2; BFS depth 3 x 4 numpy error states (sharded over depth-1 states); det_3x3 element types on all triples of the 36 vectors "
                 "for b=2^20 and b=2^70 (object types); face_basis forms on all triples of {-1,0,1}^3; unit-of-length sweeps with outer "
-                "vectors {-2..2}^3, box pairs d=2 {-1,0,1,2}, d=3 box points, pad d=2",
+                "vectors {-2..2}^3, box pairs d=2 {-1,0,1,2}, d=3 box points, pad d=2; aspect ratio k in {8,16,24} x all 6 "
+                "patterns (k=16: + 6 mixed) x all kinds with outer vectors {-2..2}^3; Vec histories depth 4; BFS depth 3 in the "
+                "rotated world form + depth 2 in the other",
 }
 
 HALF = lambda lo, hi: [x / 2 for x in range(2 * lo - 1, 2 * hi + 2)]     # half-lattice one step beyond the corners
@@ -93,6 +132,15 @@ L2 = [-2, -1, 0, 1, 2]
 L1 = [-1, 0, 1]
 L1P = [-1, 0, 1, 2]
 UNIT_EXPS = (-30, 30)
+ASPECT_K = {"quick": (16,), "thorough": (8, 16, 24)}
+
+
+def _aspect_patterns(k):
+    return [[k, 0, 0], [0, k, 0], [0, 0, k], [k, k, 0], [k, 0, k], [0, k, k]]
+
+
+def _aspect_mixed(k):
+    return [list(p) for p in itertools.permutations((k, k // 2, 0))]
 
 
 def tasks(tier):
@@ -179,12 +227,47 @@ def tasks(tier):
         if th:
             chunks(dict(u, kind="box_point", d=3, corners=[0, 1], points=HALF(0, 1)), 4)
             chunks(dict(u, kind="pad", d=2, corners=L1), 3)
+    # ---- (b4) aspect-ratio deviation: the same sweeps with coordinate i multiplied by 2^e_i, e in {0,k}^3 minus the two
+    # uniform patterns (needle and pancake shapes along every axis / coordinate plane; corners within 2^-k of 0 and of pi,
+    # circumradii 2^k times the short side, boxes 2^k times longer than wide); integer coordinates, so every oracle is exact
+    for k in ASPECT_K[tier]:
+        pats = _aspect_patterns(k) + (_aspect_mixed(k) if th and k == 16 else [])
+        for pi, pat in enumerate(pats):
+            a = dict(aspect=pat, dtype="float")
+            ao = L2 if th else L1
+            for kd in ("angle3", "cotan", "circum"):
+                chunks(dict(a, kind=kd, inner=L1, outer=ao), (27 if th else 3) * (2 if kd == "circum" else 1))
+            chunks(dict(a, kind="signed", outer=ao), 25 if th else 3)
+            # the remaining kinds: every pattern in the thorough tier, a rotation of the patterns in the quick tier
+            if th or pi % 3 == 0:
+                T.append(dict(a, kind="cross_dot_norm"))
+                chunks(dict(a, kind="box_point", d=3, corners=[0, 1], points=HALF(0, 1)), 4)
+            if th or pi % 3 == 1:
+                chunks(dict(a, kind="det3", alpha=L1), 3)
+                chunks(dict(a, kind="box_pair", d=3, corners=[0, 1]), 2)
+            if th or pi % 3 == 2:
+                chunks(dict(a, kind="plane", alpha=L1), 3)
+                chunks(dict(a, kind="of_points", d=3, alpha=L1, maxn=2), 2)
+            if pat[2] == 0 and pat[0] != pat[1]:           # the planar kinds see the first two exponents only
+                T.append(dict(a, kind="det2"))
+                chunks(dict(a, kind="lines2d", palpha=L1, dalpha=L2 if th else L1), 9)
+                chunks(dict(a, kind="seg2d", alpha=L2), 5)
+                chunks(dict(a, kind="box_point", d=2, corners=L1P, points=HALF(-1, 2)), 6)
+                chunks(dict(a, kind="box_pair", d=2, corners=L1P if th else L1), 16 if th else 3)
+                chunks(dict(a, kind="of_points", d=2, alpha=L2 if th else L1, maxn=3), 5 if th else 1)
+                chunks(dict(a, kind="pad", d=2, corners=L1), 3)
+    # ---- (c') histories on ONE Vec object: every sequence of <= 3 (thorough 4) in-place events x every query (mc/c12_hist.py)
+    T.extend(XH.tasks(tier))
     # ---- (c) history BFS
-    for init in INITS:
+    # world form (caller vectors plain arrays / mouette Vecs): rotated over the four error configurations at the full depth,
+    # the complementary combinations at depth 2 in the thorough tier
+    for ii, init in enumerate(INITS):
+        form, other = ("ndarray", "Vec") if ii % 2 == 0 else ("Vec", "ndarray")
         if th:
-            chunks(dict(kind="bfs", init=init, depth=3), 16)     # sharded over the distinct depth-1 states
+            chunks(dict(kind="bfs", init=init, depth=3, form=form), 16)     # sharded over the distinct depth-1 states
+            chunks(dict(kind="bfs", init=init, depth=2, form=other), 1)
         else:
-            chunks(dict(kind="bfs", init=init, depth=2), 1)
+            chunks(dict(kind="bfs", init=init, depth=2, form=form), 1)
     return T
 
 
@@ -192,7 +275,7 @@ def tasks(tier):
 class Ctx:
     """Per-task context: library handles + guard."""
 
-    def __init__(self, rep, init="default", unit_exp=0):
+    def __init__(self, rep, init="default", unit_exp=0, aspect=None):
         import numpy as np
         import mouette as M
         import mouette.geometry as G
@@ -202,13 +285,21 @@ class Ctx:
         self.rep = rep
         self.saved = np.geterr()
         self.lib = lib_dir_of(M)
-        self.g = Guard(rep, np, G.AABB, INITS[init], self.lib)
+        self.g = Guard(rep, np, G.AABB, INITS[init], self.lib, Vec=G.Vec)
 
         self.evals = {}
         # unit of length: every coordinate of the swept lattices is multiplied by 2^unit_exp (exactly: Python ints
         # for a positive exponent, dyadic floats for a negative one), expectations follow by exact arithmetic
         self.uexp = unit_exp
         self.U = 2.0 ** unit_exp
+        # aspect ratio: coordinate i of every swept point / vector is multiplied by 2^aspect[i] (non-negative exponents:
+        # Python ints, so every oracle stays exact); directions that the unit-of-length deviation leaves alone (rotation
+        # axes, plane / reference normals) and scalar lengths (paddings) are left alone here too.  U = the largest factor.
+        self.aspect = list(aspect) if aspect else None
+        if self.aspect:
+            assert not unit_exp and all(isinstance(e, int) and 0 <= e <= 24 for e in self.aspect)
+            self.U = 2.0 ** max(self.aspect)
+        self.deviated = bool(unit_exp or self.aspect)
 
     def sc(self, x):
         if not self.uexp:
@@ -216,11 +307,19 @@ class Ctx:
         return x * (2 ** self.uexp) if self.uexp > 0 else x * self.U
 
     def scv(self, v):
+        if self.aspect:
+            return tuple(x * (2 ** e) for x, e in zip(v, self.aspect))
         return tuple(self.sc(x) for x in v) if self.uexp else tuple(v)
 
     def sub(self, sub):
-        """under a unit-of-length deviation every clause is its own subcheck C12.scale.<clause>"""
-        return "C12.scale." + sub[4:] if self.uexp and sub.startswith("C12.") and not sub.startswith("C12.effects.") else sub
+        """under a unit-of-length deviation every clause is its own subcheck C12.scale.<clause>, under an aspect-ratio
+        deviation C12.aspect.<clause>"""
+        if sub.startswith("C12.") and not sub.startswith("C12.effects."):
+            if self.uexp:
+                return "C12.scale." + sub[4:]
+            if self.aspect:
+                return "C12.aspect." + sub[4:]
+        return sub
 
     def ev(self, sub, n=1):
         e = self.evals
@@ -723,10 +822,15 @@ def _triples(task, c):
                 yield B, A, outer
 
 
-def _angle_oracle(u, v):
+def _angle_oracle(u, v, needle=False):
+    """angle of two integer vectors.  Default: acos of the exactly formed cosine (accurate to 1e-9 only away from 0 and pi:
+    fine on the small lattices).  needle=True (aspect-ratio deviation, angles within 2^-24 of 0 or pi): the angle from the
+    EXACT integer |u x v|^2 and u.v, one square root and one atan2 - accurate to a few ulp for every angle."""
     uu, vv = X.sqnorm(u), X.sqnorm(v)
     if uu == 0 or vv == 0:
         return None
+    if needle:
+        return math.atan2(math.sqrt(X.sqnorm(X.cross(u, v))), X.dot(u, v))
     return math.acos(max(-1.0, min(1.0, X.dot(u, v) / math.sqrt(uu * vv))))
 
 
@@ -742,7 +846,7 @@ def run_angle3(task, c: Ctx):
             ok1, t1, e1 = g.call("angle_3pts", G.angle_3pts, a, b, cc)
             ok2, t2, e2 = g.call("angle_3pts", G.angle_3pts, cc, b, a)
             u, v = X.sub(A, B), X.sub(C, B)
-            want = _angle_oracle(u, v)
+            want = _angle_oracle(u, v, bool(c.aspect))
             icls = "zero_length_arm" if want is None else "collinear" if X.sqnorm(X.cross(u, v)) == 0 else "generic"
             det = {"A": list(A), "B": list(B), "C": list(C)}
             c.ev("C12.prim.angle_3pts.range")
@@ -784,7 +888,7 @@ def run_signed(task, c: Ctx):
         for j, V2 in enumerate(outer):
             v2 = f(V2)
             S = X.cross(V1, V2)
-            mag = _angle_oracle(V1, V2)
+            mag = _angle_oracle(V1, V2, bool(c.aspect))
             B = c.scv(normals[(i + 2 * j) % 27])           # centre of the three-point form
             a_pt, b_pt, cpt = f(X.add(V1, B)), f(B), f(X.add(V2, B))
             for N, n in zip(normals, narr):
@@ -798,7 +902,7 @@ def run_signed(task, c: Ctx):
                     icls = "generic"
                 rep.flag("signed:" + icls)
                 det = {"V1": list(V1), "V2": list(V2), "N": list(N)}
-                if c.uexp and icls == "normal_orthogonal_to_V1xV2":
+                if c.deviated and icls == "normal_orthogonal_to_V1xV2":
                     # known finding of the unit lattice (no antisymmetric value exists): not judged again per unit
                     rep.count("filtered:scaled_signed_angle_normal_orthogonal")
                     continue
@@ -865,7 +969,9 @@ def run_cotan(task, c: Ctx):
                 c.bad("C12.prim.cotan.value", "cotan", "raises:" + exc, "nondegenerate", det)
                 continue
             want = X.dot(u, v) / math.sqrt(cs)
-            if not close(cot, want, 1e-12):
+            # needle corners (aspect-ratio deviation): the reference is exact up to one square root and one division;
+            # 1e-9 leaves room for the rounding of the two normalisations of a correct implementation (a few ulp)
+            if not close(cot, want, 1e-9 if c.aspect else 1e-12):
                 c.bad("C12.prim.cotan.value", "cotan", "mismatch:cotan", "nondegenerate", dict(det, got=float(cot), want=want))
             ok2, ang, e2 = g.call("angle_3pts", G.angle_3pts, a, b, cc)
             c.ev("C12.prim.cotan.reciprocal_tangent")
@@ -873,6 +979,11 @@ def run_cotan(task, c: Ctx):
                 continue
             if X.dot(u, v) == 0:
                 good = abs(cot) <= 1e-12 and close(ang, math.pi / 2)
+            elif c.aspect:
+                # the angle is a double: near pi (and pi/2) its rounding alone moves tan by ulp(angle)/|sin cos| (relative),
+                # which is not the library's doing - allowed on top of 1e-9
+                sc_ = abs(math.sin(ang) * math.cos(ang))
+                good = sc_ > 0 and close(cot * math.tan(ang), 1.0, 1e-9 + 4 * math.ulp(ang) / sc_)
             else:
                 good = close(cot * math.tan(ang), 1.0, 1e-9)
             if not good:
@@ -1224,10 +1335,15 @@ class World:
     """Caller-owned arrays, live boxes, a point cloud and one result slot R, created under a given numpy
     error configuration (which is part of the state)."""
 
-    def __init__(self, c: Ctx, init):
+    def __init__(self, c: Ctx, init, form="ndarray"):
         np, AABB, M = c.np, c.AABB, c.M
         np.seterr(**INITS[init])
         a = np.array
+        if form == "Vec":
+            # argument-form deviation of the world: every caller-owned vector is a mouette Vec (the documented argument
+            # type) that owns its data; the (N,3) point array stays a plain array
+            a = lambda x: c.Vec(np.array(x)) if np.ndim(x) == 1 else np.array(x)
+        self.form = form
         self.arr = {
             "lo": a([0., 0., 0.]), "hi": a([1., 2., 2.]), "p": a([3., 1., -1.]), "q": a([.5, .5, .5]),
             "z": a([0., 0., 0.]), "u": a([1., 0., 0.]), "v": a([0., 2., 0.]), "w": a([1, 2, 2]),
@@ -1245,10 +1361,23 @@ class World:
         out.append(("R", self.R))
         return out
 
+    def headers(self, c, o):
+        """what canon() does not see of an object: headers (class, dtype, strides, flags, instance attributes) of the
+        arrays it is made of - a caller array, the two corners of a box, the vertex objects of the mesh"""
+        np = c.np
+        if isinstance(o, np.ndarray):
+            return (hdr(np, o),)
+        if isinstance(o, c.AABB):
+            return (hdr(np, o.mini), hdr(np, o.maxi))
+        if o is self.mesh:
+            return tuple(hdr(np, o.vertices[i]) if isinstance(o.vertices[i], np.ndarray) else type(o.vertices[i]).__name__
+                         for i in range(len(o.vertices)))
+        return ()
+
     def snapshot(self, c):
         np = c.np
         with np.errstate(all="ignore"):
-            return {name: canon(o, with_alias=False) for name, o in self.objects()}
+            return {name: (canon(o, with_alias=False), self.headers(c, o)) for name, o in self.objects()}
 
     def rkind(self, c):
         if isinstance(self.R, c.AABB):
@@ -1328,6 +1457,12 @@ def _bfs_events(c):
     ev("of_points(p)!", "AABB.of_points", AABB.of_points, ["p"])
     ev("of_mesh(mesh)", "AABB.of_mesh", AABB.of_mesh, ["mesh"], store=True)
     ev("of_mesh(mesh,0.5)", "AABB.of_mesh", AABB.of_mesh, ["mesh", 0.5], store=True)
+    # the vertex objects of the mesh as arguments (elements of a container the caller does not own)
+    ev("AABB(mesh.v0,mesh.v1)", "AABB.__init__", AABB, ["mesh.v0", "mesh.v1"], store=True)
+    ev("cross(mesh.v1,mesh.v2)", "cross", G.cross, ["mesh.v1", "mesh.v2"], store=True)
+    ev("normalized(mesh.v1)", "Vec.normalized", Vec.normalized, ["mesh.v1"], store=True)
+    ev("rotate_around_axis(mesh.v2,mesh.v1,0)", "rotate_around_axis", G.rotate_around_axis, ["mesh.v2", "mesh.v1", 0.0], store=True)
+    ev("project_to_plane(mesh.v2,mesh.v1,mesh.v0)", "project_to_plane", G.project_to_plane, ["mesh.v2", "mesh.v1", "mesh.v0"], store=True)
     ev("norm(R)", "norm", G.norm, ["R"], needs="vec3")
     ev("cross(R,u)", "cross", G.cross, ["R", "u"], needs="vec3")
     return E
@@ -1342,6 +1477,8 @@ def _resolve(world, spec):
         return world.R
     if spec == "mesh":
         return world.mesh
+    if spec.startswith("mesh.v"):
+        return world.mesh.vertices[int(spec[6:])]
     if "." in spec:
         b, attr = spec.split(".")
         return getattr(world.box[b], attr)
@@ -1368,8 +1505,11 @@ def run_bfs(task, c: Ctx):
     by_label = {e["label"]: e for e in events}
     labels = [e["label"] for e in events]
 
+    form = task.get("form", "ndarray")
+    rep.flag("bfs_form:" + form)
+
     def make():
-        return World(c, init)
+        return World(c, init, form)
 
     def events_of(w):
         rk = w.rkind(c)
@@ -1388,6 +1528,8 @@ def run_bfs(task, c: Ctx):
                     continue
                 parts = [o.mini, o.maxi] if isinstance(o, AABB) else [o] if isinstance(o, np.ndarray) else []
                 shares[name] = any(np.shares_memory(x, y) for x in parts for y in (tb.mini, tb.maxi))
+        if any(isinstance(s_, str) and s_.startswith("mesh.v") for s_ in e["args"]):
+            rep.flag("bfs_event:mesh_vertex_argument")
         ok, val, exc, msg, culprit = blame_run(np, c.lib, e["fn"], args, {})
         g1 = np.geterr()
         det = {"initial_geterr": init, "history_then_call": label, "outcome": "returned" if ok else f"raised {exc}: {msg}"}
@@ -1405,8 +1547,19 @@ def run_bfs(task, c: Ctx):
                 continue
             c.ev("C12.effects.others_unchanged")
             if img != w.images[name]:
-                kind_of = "argument" if name.split(":")[-1] in [s for s in e["args"] if isinstance(s, str)] else "bystander"
-                if kind_of == "argument" and name.startswith("array:"):
+                argnames = [s for s in e["args"] if isinstance(s, str)]
+                kind_of = "argument" if name.split(":")[-1] in argnames or (name == "mesh" and any(s.startswith("mesh") for s in argnames)) \
+                    else "bystander"
+                old = w.images[name]
+                if img[0] == old[0]:
+                    # same content, another header: class / dtype / strides / WRITEABLE flag / instance attributes of an array
+                    what = sorted({f for h0, h1 in zip(old[1], img[1]) if isinstance(h0, tuple) and isinstance(h1, tuple)
+                                   for f in hdr_diff(h0, h1)}) or ["header"]
+                    c.bad("C12.effects.arguments_unchanged" if kind_of == "argument" else "C12.effects.others_unchanged", e["callee"],
+                          "side_effect:argument_header_changed" if kind_of == "argument" else "side_effect:header_of_other_object_changed",
+                          "+".join(what) + (":Vec_argument" if form == "Vec" or name == "mesh" else ""),
+                          dict(det, victim=name, changed=what, before=repr(old[1])[:300], after=repr(img[1])[:300]))
+                elif kind_of == "argument" and name.startswith("array:"):
                     c.bad("C12.effects.arguments_unchanged", e["callee"], "side_effect:argument_changed",
                           f"{name}:{'returns' if ok else 'raises'}", dict(det, victim=name))
                 else:
@@ -1431,7 +1584,8 @@ def run_bfs(task, c: Ctx):
     def key_of(w: World):
         with np.errstate(all="ignore"):
             body = canon(w.arr, w.box, w.R, w.mesh)
-        return (tuple(sorted(np.geterr().items())), body)
+            heads = tuple(w.headers(c, o) for _, o in w.objects())
+        return (tuple(sorted(np.geterr().items())), body, heads)
 
     def on_state(w, hist):
         rep.case(("bfs", init, key_of(w)))
@@ -1494,14 +1648,18 @@ RUNNERS = {
 }
 RUNNERS.update(XE.RUNNERS)
 RUNNERS.update(XD.RUNNERS)
+RUNNERS.update(XH.RUNNERS)
 
 
 def run_task(task, rep: Report):
     ue = task.get("unit_exp", 0)
-    c = Ctx(rep, "default", ue)
+    c = Ctx(rep, "default", ue, task.get("aspect"))
     if ue:
         rep.class_suffix = f":unit=2^{ue}"      # appended to the input class of every fingerprint of the task
         rep.flag(f"unit:2^{ue}")
+    if c.aspect:
+        rep.class_suffix = f":aspect=2^{max(c.aspect)}"
+        rep.flag("aspect:" + ",".join(str(e) for e in c.aspect))
     with warnings.catch_warnings():
         warnings.simplefilter("ignore")
         try:
@@ -1523,7 +1681,7 @@ EXPECTED_EVALS = [
     "C12.prim.rotate_around_axis.isometry", "C12.prim.rotate_around_axis.fixes_axis", "C12.prim.principal_angle",
     "C12.prim.angle_diff", "C12.prim.roots", "C12.prim.project_to_plane", "C12.prim.intersect_2lines2D",
     "C12.prim.distance_to_segment2D", "C12.prim.axis_rot_from_z",
-] + XE.EXPECTED_EVALS + XD.EXPECTED_EVALS + [
+] + XE.EXPECTED_EVALS + XD.EXPECTED_EVALS + XH.EXPECTED_EVALS + [
     # the unit-of-length deviation reached every family of clauses
     "C12.scale.box.distance", "C12.scale.box.project.realises_distance", "C12.scale.box.do_intersect", "C12.scale.box.of_points.tight",
     "C12.scale.box.pad.documented_effect", "C12.scale.prim.norm", "C12.scale.prim.cross", "C12.scale.prim.det_2x2",
@@ -1557,6 +1715,34 @@ def finish(tier, rep: Report):
     for ue in UNIT_EXPS:
         if f"unit:2^{ue}" not in rep.flags:
             fails.append(f"unit-of-length deviation 2^{ue} not run")
+    # aspect-ratio deviation: every pattern of every k ran, and reached every family of clauses
+    for k in ASPECT_K[tier]:
+        for pat in _aspect_patterns(k):
+            if "aspect:" + ",".join(str(e) for e in pat) not in rep.flags:
+                fails.append(f"aspect-ratio pattern {pat} not run")
+    for s in ("prim.cotan.value", "prim.cotan.reciprocal_tangent", "prim.angle_3pts.value", "prim.angle_2vec3D",
+              "prim.signed_angle.orientation", "prim.circumcenter.equidistant", "prim.cross", "prim.dot", "prim.norm",
+              "prim.det_2x2", "prim.det_3x3", "prim.project_to_plane", "prim.intersect_2lines2D", "prim.distance_to_segment2D",
+              "box.distance", "box.project.realises_distance", "box.union", "box.intersection", "box.do_intersect",
+              "box.of_points.tight", "box.pad.documented_effect"):
+        if rep.counters.get("eval:C12.aspect." + s, 0) <= 0:
+            fails.append("aspect-ratio deviation: no evaluation of " + s)
+    # argument form: Vec re-runs really happened, for the constructors and the primitives alike
+    if rep.counters.get("forms:vec_argument_reruns", 0) < 1000 or rep.counters.get("eval:C12.forms.vec_argument", 0) < 1000:
+        fails.append("Vec-argument form: fewer than 1000 repeated calls")
+    for cal in ("AABB", "AABB.contains_point", "AABB.project", "AABB.distance", "cross", "dot", "norm", "distance", "det_3x3",
+                "angle_3pts", "cotan", "circumcenter", "signed_angle_2vec3D", "rotate_2d", "rotate_around_axis", "project_to_plane",
+                "distance_to_segment2D", "Vec.normalized"):
+        if "vecform:" + cal not in rep.flags:
+            fails.append("Vec-argument form never run for " + cal)
+    for fm in ("ndarray", "Vec"):
+        if "bfs_form:" + fm not in rep.flags:
+            fails.append("BFS world form not run: " + fm)
+    if len(rep.outcomes.get("bfs:AABB.__init__", ())) < 2:
+        fails.append("BFS: AABB.__init__ produced a single outcome")
+    if "bfs_event:mesh_vertex_argument" not in rep.flags:
+        fails.append("BFS: no event took a vertex object of the mesh")
     fails += XE.finish(tier, rep)
     fails += XD.finish(tier, rep)
+    fails += XH.finish(tier, rep)
     return fails
